@@ -93,7 +93,7 @@ def self_validate(ctx, res, impl_tree=None, harness_pkg=None, order_free=None, m
     pkgs = sorted(by_pkg)[:max_pkgs] if ctx.tier == "quick" else sorted(by_pkg)[:max_pkgs * 3]
     for pkg_rel in pkgs:
         cases = by_pkg[pkg_rel][:per_pkg]
-        nat, _ = runner.native_replay(ctx, pkg_rel, [(fn, fn, smp["model"]) for fn, smp in cases])
+        nat, _ = runner.native_replay(ctx, pkg_rel, [(fn, fn, smp.get("model") or {}) for fn, smp in cases])
         for fn, smp in cases:
             n = nat.get(fn)
             if n is None:
